@@ -287,4 +287,9 @@ def flushTop (s : St) : St :=
   let p := recordTrace s.frames
   { s with frames := p.1, out := s.out ++ p.2 }
 
+/-- atfork_child_handler: the child gets fresh buffers (its own data file) and
+    every inherited frame is marked WRITTEN ("do not record parent's functions") -/
+def forkChild (s : St) : St :=
+  { s with frames := s.frames.map fun f => { f with written := true }, out := [] }
+
 end Uft.Mcount
